@@ -14,6 +14,9 @@
                         called since) / t's pending set overlaps a reset
      dm, lateTO         Monitor: a set() has returned and no wait has consumed it since / a timed wait gave up while dm
      sigRet, succ       Semaphore: signals returned / successful waits returned
+     cw[t], must[u]     Signal: the waiters that were blocked inside wait when t's pending set() was called and have not given
+                        up since / u was one of them when that set() returned: u's wait has to return true ("set releases
+                        all current waiters"), whatever reset() follows
      ends               values returned by finished thread functions
    The event "timeout" (logged by the scheduler) is the instant a timed wait gives up while its thread is still
    blocked: no waiter may stay blocked - and give up - while the signal is definitely set, while a semaphore token is
@@ -27,7 +30,7 @@ Init0 == [owner |-> 0, depth |-> 0, busy |-> [t \in Ts |-> FALSE], count |-> 0, 
           prim |-> "none", sdirty |-> [t \in Ts |-> FALSE], mdirty |-> [t \in Ts |-> FALSE], clk |-> 0,
           callAt |-> [t \in Ts |-> 0], lockAt |-> [t \in Ts |-> 0], dmAt |-> 0, ds |-> FALSE, dm |-> FALSE, lateTO |-> FALSE, sigRet |-> 0, succ |-> 0, init |-> 0,
           f |-> [t \in Ts |-> "none"], t0 |-> [t \in Ts |-> 0], ms |-> [t \in Ts |-> 0], saved |-> [t \in Ts |-> 0],
-          exp |-> [t \in Ts |-> -1]]      \* exp[t]: the result of the function t's Thread object was (successfully) started with
+          exp |-> [t \in Ts |-> -1], cw |-> [t \in Ts |-> {}], must |-> [t \in Ts |-> FALSE]]      \* exp[t]: the result of the function t's Thread object was (successfully) started with
 
 Pending(s, fs) == { u \in Ts : s.f[u] \in fs }
 Begin(s, t, f, ev) == [s EXCEPT !.f[t] = f, !.t0[t] = ev.now, !.ms[t] = ev.ms, !.clk = s.clk + 1, !.callAt[t] = s.clk + 1]
@@ -45,7 +48,8 @@ Call(ev, s) ==
     [] f = "signal" -> { [b EXCEPT !.count = s.count + 1] }
     [] f \in {"wait", "twait", "trywait"} -> { [b EXCEPT !.seen[t] = s.ct] }
     [] f = "set" -> { [b EXCEPT !.sdirty[t] = (Pending(s, {"reset"}) # {}), !.ct = TRUE, !.seen = [u \in Ts |-> s.seen[u] \/ s.f[u] \in {"wait", "twait"}],
-                                !.dirty = [u \in Ts |-> s.dirty[u] \/ s.f[u] = "reset"]] }
+                                !.dirty = [u \in Ts |-> s.dirty[u] \/ s.f[u] = "reset"],
+                                !.cw[t] = IF "cw" \in DOMAIN ev THEN { ev.cw[i] : i \in DOMAIN ev.cw } \cap Pending(s, {"wait", "twait"}) ELSE {}] }
     [] f = "reset" -> { [b EXCEPT !.dirty[t] = (Pending(s, {"set"}) # {}), !.ds = FALSE,
                                   !.sdirty = [u \in Ts |-> s.sdirty[u] \/ s.f[u] = "set"]] }
     \* Monitor::wait releases the monitor (the caller must hold it) and re-acquires it before returning
@@ -68,10 +72,11 @@ Ret(ev, s) ==
               ELSE IF f = "twait" THEN (IF Expired(s, t, ev) THEN { e } ELSE {})
               ELSE IF f = "trywait" THEN { e } ELSE {}                                             \* untimed wait never fails
          [] f \in {"wait", "twait"} /\ ev.prim = "signal" ->
-              IF ev.r = 1 THEN (IF s.seen[t] THEN { e } ELSE {})          \* true only if set since the last reset
-              ELSE IF f = "twait" /\ Expired(s, t, ev) THEN { e } ELSE {}
+              IF ev.r = 1 THEN (IF s.seen[t] THEN { [e EXCEPT !.must[t] = FALSE, !.cw = [u \in Ts |-> s.cw[u] \ {t}]] } ELSE {})          \* true only if set since the last reset
+              ELSE IF f = "twait" /\ Expired(s, t, ev) /\ ~s.must[t] THEN { [e EXCEPT !.cw = [u \in Ts |-> s.cw[u] \ {t}]] } ELSE {}   \* a set() that found it blocked releases it
          [] f = "reset" -> { IF s.dirty[t] THEN e ELSE [e EXCEPT !.ct = FALSE] }
-         [] f = "set" -> { [e EXCEPT !.ds = s.ds \/ ~s.sdirty[t]] }      \* definitely set unless a reset overlapped this set
+         [] f = "set" -> { [e EXCEPT !.ds = s.ds \/ ~s.sdirty[t],      \* definitely set unless a reset overlapped this set
+                                     !.must = [u \in Ts |-> s.must[u] \/ u \in s.cw[t]], !.cw[t] = {}] }
          [] f = "signal" -> { [e EXCEPT !.sigRet = s.sigRet + 1] }
          \* the flag is definitely pending unless a successful wait overlapped this set (it may have consumed it)
          [] f = "mset" -> { IF s.mdirty[t] THEN e ELSE [e EXCEPT !.dm = TRUE, !.dmAt = s.callAt[t]] }
@@ -90,7 +95,8 @@ Ret(ev, s) ==
 Timeout(ev, s) ==
   LET t == ev.t  f == s.f[t] IN
   IF t \notin Ts THEN { s }
-  ELSE CASE f = "twait" /\ s.prim = "signal" -> IF s.ds THEN {} ELSE { s }          \* blocked while the signal remains set
+  ELSE CASE f = "twait" /\ s.prim = "signal" -> IF s.ds \/ s.must[t] THEN {}          \* blocked while the signal remains set / after a set() that found it waiting
+                                                 ELSE { [s EXCEPT !.cw = [u \in Ts |-> s.cw[u] \ {t}]] }   \* gave up before that set() took effect
          [] f = "twait" /\ s.prim = "sem" ->                                        \* blocked while a token is certainly free for it
               IF s.init + s.sigRet - s.succ - Cardinality(Pending(s, {"wait", "twait", "trywait"}) \ {t}) > 0 THEN {} ELSE { s }
          \* Monitor: a set() that was issued after this waiter had taken the monitor is still unconsumed
